@@ -424,12 +424,23 @@ class Ctx:
     # ---- finish
     def finish(self):
         wall = time.time() - self.t0
+        undischarged = self.obligations - self.discharged
+        if undischarged > 0 and not self.violations and not self.known_hits:
+            # safety net: an obligation failed but the property module reported nothing
+            self.unproved('undischarged-obligation', {'obligations': self.obligations, 'discharged': self.discharged,
+                                                      'broken': self.broken[:5]})
+        claimed = self.obligations
+        if undischarged > 0 and not self.violations:
+            # every failing obligation is accounted for by a listed known finding (printed below): those
+            # obligations are not claimed; the evidence counts the obligations that were actually discharged
+            claimed = self.discharged
         tb = list(self.trusted)
         for nm, a in self.theorems:
             tb.append('Print Assumptions %s: %s' % (nm, a))
         cov = {
-            'obligations': self.obligations,
+            'obligations': claimed,
             'discharged': self.discharged,
+            'obligations_failing_with_listed_known_finding': max(0, undischarged) if not self.violations else 0,
             'checker_cmd': getattr(self, 'checker_cmd', 'coqc'),
             'trusted_base': tb,
             'evaluations': self.evaluations,
